@@ -111,10 +111,16 @@ func emitOnly(cs *Case) bool {
 	if !only(cs.Begin, true) || !only(cs.End, false) {
 		return false
 	}
+	hasRange, raises := false, false
 	for _, r := range cs.Rules {
 		if !only(r.Body, false) {
 			return false
 		}
+		hasRange = hasRange || r.Pat == "r"
+		raises = raises || r.Raise != ""
+	}
+	if raises && hasRange {
+		return false // which records reach a range rule then depends on the abandonments: left to correspondence
 	}
 	return len(cs.Rules) > 0 || cs.HasEnd
 }
@@ -177,9 +183,25 @@ func flatExpected(cs *Case) (want string, fatal bool) {
 			}
 		}
 	}
-	for i, r := range recs {
+	skipFile := false // a pattern's function executed nextfile: the rest of this file is not delivered
+	skipped := 0      // records not delivered so far (they do not count in NR)
+	var lastDelivered *srec
+	for i := range recs {
+		if skipFile && recs[i].FNR > 1 {
+			skipped++
+			continue
+		}
+		skipFile = false
+		r := recs[i]
+		r.NR -= skipped
+		lastDelivered = &r
 		for k, rule := range cs.Rules {
 			m := true
+			if rule.Pat == "p" && rule.Raise != "" && evalCond(rule.W, r) {
+				// next / nextfile from a function called in the pattern: the record is abandoned
+				skipFile = rule.Raise == "nf"
+				break
+			}
 			switch rule.Pat {
 			case "p":
 				m = evalCond(rule.B, r)
@@ -195,6 +217,13 @@ func flatExpected(cs *Case) (want string, fatal bool) {
 			for _, o := range rule.Body {
 				parts = append(parts, fmtE(o.N, r))
 			}
+		}
+	}
+	final.NR -= skipped
+	if lastDelivered != nil {
+		final.Line = lastDelivered.Line
+		if n := len(recs); skipFile && final.File == recs[n-1].File && final.FNR == recs[n-1].FNR {
+			final.FNR = lastDelivered.FNR // the tail of the last input was skipped: FNR stopped there
 		}
 	}
 	if fatal {
@@ -414,13 +443,17 @@ func rawCases(pool map[string][]string) []*Case {
 		raw("F02 getline $2 < file", `{ getline $2 < "k1"; print; print NF, NR }`, nil, []string{"a b c"}, "a p q c\n3 1\n"),
 		raw("F02 getline $2 < file inside a function, stack intact", `function f(a, b) { getline $2 < "k1"; return 5 } { print 1 + f(10, 20); print }`, nil, []string{"a b c"}, "6\na p q c\n"),
 		raw("getline $3 from the main input counts in NR", `NR == 1 { getline $3; print; print NR, FNR, NF }`, []string{"k2"}, nil, "a x b\n2 2 3\n"),
-		// next / nextfile executed by a function that is called from a PATTERN (G11-1)
+		// next / nextfile executed by a function that is called from a PATTERN (Gc11-1, repaired): regression cases
 		raw("next in a function called from a pattern", `function f() { if ($0 ~ /b/) next; return 1 } f() { print NR, $0 } END { print "end", NR }`, []string{"k2"}, nil,
 			"1 a x\n4 y\nend 5\n"),
 		raw("nextfile in a function called from a pattern", `function f() { if (FNR == 2) nextfile; return 1 } f() { print FILENAME, FNR, $0 } END { print "end", NR }`, []string{"k2", "k1"}, nil,
 			"k2 1 a x\nk1 1 p q\nend 4\n"),
 		raw("next in a function called from a range pattern", `function f() { if ($0 ~ /y/) next; return 0 } /b/, f() { print NR, $0 } END { print "end", NR }`, []string{"k2"}, nil,
 			"2 b\n3 a b\n5 b x\nend 5\n"),
+		raw("next in the end pattern on the very record that opened the range: the range stays open", `function f() { if ($0 ~ /y/) next; return 0 } /y/, f() { print NR, $0 } END { print "end", NR }`, []string{"k2"}, nil,
+			"5 b x\nend 5\n"),
+		raw("nextfile in the begin pattern: the range is not opened, the file is abandoned", `function f() { if (FNR == 2) nextfile; return $0 ~ /a/ } f(), /x/ { print FILENAME, FNR, $0 } END { print "end", NR }`, []string{"k2", "k1", "k2"}, nil,
+			"k2 1 a x\nk2 1 a x\nend 6\n"),
 		// exit from a function called from a pattern is handled
 		raw("exit in a function called from a pattern", `function f() { if (NR == 3) exit 4; return 1 } f() { print NR } END { print "end", $0 }`, []string{"k2"}, nil, "1\n2\nend a b\n!status: 4"),
 		// uninitialised FILENAME in BEGIN, getline in BEGIN sets it
